@@ -300,4 +300,21 @@ example : ∃ out t', ((((Tcp.create 80 1234).addOption (Tcp.encodeMss 1460)).ad
     Tcp.parse out = .ok (t', .raw [1, 2, 3]) ∧ t'.opts = [⟨2, 2, [5, 0xb4]⟩, ⟨1, 0, []⟩, ⟨3, 1, [7]⟩] ∧ t'.doff = 7 :=
   ⟨_, _, rfl, rfl, rfl, rfl⟩
 
+/-! ### what the representability predicate `Canon` excludes, executed on the model (and, through the C02 API programs of
+    `checks/wire_gen_transport.py`, on the real class): none of these is silently *mis*-encoded — END is the list
+    terminator, `write_option` never writes data for END / NOP, a spoofed length field is written as given -/
+
+/-- an END option added through the API terminates the list: the parser (which never stores END) gives back what precedes it -/
+example : ∃ out t', (((Tcp.create 80 1234).addOption ⟨0, 0, []⟩).addOption (Tcp.encodeMss 1460)).write ⟨[], []⟩
+      (List.replicate 28 0) = .ok out ∧ Tcp.parse out = .ok (t', .none) ∧ t'.opts = [] := ⟨_, _, rfl, rfl, rfl⟩
+
+/-- data attached to a NOP is counted and written as the single kind octet -/
+example : ((Tcp.create 80 1234).addOption ⟨1, 2, [7, 7]⟩).hdr = 24 ∧
+    ∃ out, ((Tcp.create 80 1234).addOption ⟨1, 2, [7, 7]⟩).write ⟨[], []⟩ (List.replicate 24 0) = .ok out ∧
+      out.drop 20 = [1, 0, 0, 0] := ⟨rfl, _, rfl, rfl⟩
+
+/-- a spoofed length field (`option(kind, length, begin, end)`) goes out as given: the packet is deliberately malformed -/
+example : ∃ out, ((Tcp.create 80 1234).addOption ⟨30, 9, [1, 2]⟩).write ⟨[], []⟩ (List.replicate 24 0) = .ok out ∧
+    out.drop 20 = [30, 9, 1, 2] ∧ Tcp.parse out = .throw .malformedPacket := ⟨_, rfl, rfl, rfl⟩
+
 end Tins.Wire.Transport
